@@ -460,16 +460,22 @@ class C16(Prop):
               "within the dimensions. Proof: C04's fused form of <psi|psi> at the root, wire-by-wire renaming of sums (C16_sum_rename), "
               "delta / zero-padding elimination of the three root wires. Executable forms proved sound: C16_trace_value_checked, "
               "C16_ttndo_ofb_sound, C16_build_contractsb_sound (contracts over Z on every in-range index)"),
-        ("O", "single-site tensor product = <psi|O_c|psi> as ONE statement (C16_tp1_value, TTNDO/ValueTP1.v; executable-hypothesis form "
-              "C16_tp1_value_checked): for every well-formed state store with one open leg per node, every tree, every k >= 1, every node c and "
-              "every operator atom of shape (dd, dd), dd the physical dimension of c: the code path of TTNDO.tensor_product_expectation_value with "
-              "one factor (ttndo_tp_expectation: absorb_into_open_legs at the ket image of c, then trace_ttndo) and C04's pure-state path "
-              "tp_expectation s [(c, [dd; dd])] both succeed with closed diagrams of EQUAL VALUE over any commutative semiring -- under ttndo_of, "
-              "the build contracts of C16_trace_value and the premise that the operator atom (next_atom of the network / of the state) holds the "
-              "same matrix in both atom tables. The two halves stay as theorems: the absorbed network is still a well-formed density-operator "
-              "network (C16_tp1_absorbed_closed_partial, F) and C04's fused flat form of <psi|O_c|psi> (C16_tp1_state_value_partial, F). "
-              "Non-vacuity: C16_example_tp1_numbers (non-symmetric integer operator on an inner node and on a leaf of the four-node tree, both "
-              "diagrams evaluated by vm_compute), C16_example_tp1_applies. NOT proved: products on two or more sites, the TTNO path"),
+        ("O", "tensor-product expectation value = <psi| (x)_i O_i |psi> as ONE statement, for ANY number of single-site factors on pairwise DISTINCT "
+              "sites (C16_tp_value, executable-hypothesis form C16_tp_value_checked, state side in C04's own pair world C16_tp_value_pair_world; "
+              "TTNDO/ValueTPNA.v + ValueTPN.v; the one-factor instance with its own world C16_tp1_value / C16_tp1_value_checked, TTNDO/ValueTP1.v): "
+              "for every well-formed state store with one open leg per node, every tree, every k >= 1 and every list of (site, shape (dd, dd)) with "
+              "distinct sites, dd the physical dimension of the site (the empty list included): the code path of "
+              "TTNDO.tensor_product_expectation_value (ttndo_tp_expectation: absorb_into_open_legs at the ket image of every site in dict order, "
+              "then trace_ttndo) and C04's pure-state path tp_expectation (conjugate copy of the original state, apply_operator, contract_two_ttns) "
+              "both succeed with closed diagrams of EQUAL VALUE over any commutative semiring -- under ttndo_of, the build contracts of "
+              "C16_trace_value and the premise that factor i (atom next_atom + i of the network / of the state) holds the same matrix in both atom "
+              "tables. Proof: tp_apply node by node (tp_apply_views), the absorbed network is still a well-formed density-operator network, "
+              "C04's fused form re-proved for a general glue list (C16_tp_state_value, F), wire-by-wire renaming with one extra pair per factor. "
+              "Kept as theorems: C16_tp1_absorbed_closed_partial, C16_tp1_state_value_partial (the two one-factor halves, F). Non-vacuity: "
+              "C16_example_tp1_numbers / C16_example_tp_numbers (non-symmetric integer factors on one and on two sites of the four-node tree, both "
+              "diagrams evaluated by vm_compute), C16_example_tp1_applies, C16_example_tp_hyp, C16_example_tp_applies. NOT proved: a value "
+              "statement for the TTNO path (ttndo_ttno_expectation_value); the theorems say nothing when a site occurs twice (a TensorProduct is a "
+              "dict: cannot happen)"),
         ("I", "per explored build case (vm_compute): value_case = all structural hypotheses of C16_trace_value (value_hyp: wfsb of both stores, one open "
               "leg per node, ttndo_ofb) hold for the store program of from_ttns against the state built as a store program over the same tree and "
               "dimensions; the three build contracts are exactly what the build comparison checks on the arrays of the same case (root = eye(k), "
@@ -480,13 +486,13 @@ class C16(Prop):
               "= <psi|(x)O|psi> against an independent dense numpy oracle, also for states stored in float64 arrays / Fortran order, real / Fortran-ordered / strided "
               "factors, on a network nothing was asked of before, and along histories (several measurements on one network, operator objects reused, the source "
               "state advanced through the library API after the build, a second network from the same source; no model for these: oracle only); tensor-product "
-              "calls leave the receiver (trace still <psi|psi>) and the factor matrices unchanged. The value statements for trace() and for a tensor product on ONE site are the O clauses above; for the TTNO "
-              "expectation value and for tensor products on two or more sites the corresponding value statements are not Coq theorems (diagram level + these ties only)"),
+              "calls leave the receiver (trace still <psi|psi>) and the factor matrices unchanged. The value statements for trace() and for tensor products on any number of distinct sites are the O clauses above; for the TTNO "
+              "expectation value the corresponding value statement is not a Coq theorem (diagram level C16_expectation_closed + these ties only)"),
     ]
-    trusted_base = ["NumPy eye/pad/reshape/conj entry formulas = the premises build_contracts of C16_trace_value / C16_tp1_value (validated exactly on every build case: "
+    trusted_base = ["NumPy eye/pad/reshape/conj entry formulas = the premises build_contracts of C16_trace_value / C16_tp_value (validated exactly on every build case: "
                     "root = eye(k), padded slices zero, ket = state tensor, bra = conj(ket)); over an abstract semiring conjugation is not an operation: "
                     "'bra = conj(ket)' is the statement that the network's bra atom and the conjugate copy of C04 carry the same table",
-                    "C16_tp1_value: 'the operator atom holds the same matrix in both tables' is a premise (the caller hands the same ndarray to both code "
+                    "C16_tp_value / C16_tp1_value: 'factor i holds the same matrix in both tables' is a premise (the caller hands the same ndarray to both code "
                     "paths); absorb_into_open_legs is the Layer-W operation absorb_open (model tie of C04 / C08), the TTNDO tensor-product path is modelled as "
                     "tp_apply at the ket identifiers followed by trace_ttndo (ValueTP1.ttndo_tp_expectation; control flow = C16_tp_expectation_fixed); the "
                     "diagram of that path is not tied per instance to the library's number (the tensor-product value is compared with the dense oracle only)",
